@@ -368,6 +368,27 @@ class Checker:
             self.bad(rule, mod, node, what, msg, detail, construct)
         return bool(cond)
 
+    def undecided(self, rule, mod, node, what, why, construct=None):
+        """The rule does not recognise the code it is about (another way of writing it, which may be perfectly
+        right): neither a discharge nor a violation.  The run ends with ANALYSIS-ERROR (exit 2) unless a real
+        violation was found."""
+        self.obligations.append(Obligation(rule, self.repo.loc(mod, node, construct), what, 'undecided', why, None))
+
+    def skip(self, rule, mod, node, what, why, construct=None):
+        """The shape this rule knows is not there, and the clause is decided by another rule (a fold): discharged
+        with the reason on file."""
+        self.obligations.append(Obligation(rule, self.repo.loc(mod, node, construct), f'{what} [shape not recognised; clause decided by {why}]', 'ok', '', None))
+
+    def decide(self, state, rule, mod, node, what, msg, construct=None, detail=None, covered_by=None):
+        """state: True = holds, False = recognised and wrong, None = shape not recognised."""
+        if state is None:
+            if covered_by:
+                self.skip(rule, mod, node, what, covered_by, construct)
+            else:
+                self.undecided(rule, mod, node, what, msg, construct)
+            return None
+        return self.check(state, rule, mod, node, what, msg, detail, construct)
+
     def need(self, cond, msg):
         """Analyser-side requirement: failing it is an ANALYSIS-ERROR, not a verdict."""
         if not cond:
